@@ -392,4 +392,28 @@ def specQ (f : Fmt) (t : List Char) : IStream × Val × Val :=
       (after f ('/' :: ((u.take r.n).reverse ++ w.reverse)) v r2.n r2.eof r2.fail, r.val, r2.val)
     | _ => (after f w.reverse u r.n false false, r.val, .value 1)
 
+/-! ### output side -/
+
+def Fmt.hexOnly (f : Fmt) : Bool := f.hex && !f.dec && !f.oct
+def Fmt.octOnly (f : Fmt) : Bool := f.oct && !f.dec && !f.hex
+/-- the base a stream prints integers in: hex / oct when exactly that basefield bit is set, else decimal -/
+def Fmt.outBase (f : Fmt) : Nat := if f.hexOnly then 16 else if f.octOnly then 8 else 10
+/-- upper-case digits and prefix: hex streams with `uppercase` -/
+def Fmt.outUpper (f : Fmt) : Bool := f.hexOnly && f.uppercase
+/-- "-" for a negative value, "+" under showpos -/
+def signStr (f : Fmt) (neg : Bool) : List Char := if neg then ['-'] else if f.showpos then ['+'] else []
+/-- showbase: "0x" / "0X" on a hex stream (always), "0" on an octal stream unless the digits start with 0 (value 0) -/
+def prefixStr (f : Fmt) (isZero : Bool) : List Char :=
+  if f.showbase then
+    (if f.hexOnly then (if f.uppercase then ['0', 'X'] else ['0', 'x'])
+     else if f.octOnly ∧ ¬ isZero then ['0'] else [])
+  else []
+/-- the field: padding with the fill character up to `width`, on the right under `left` (alone in adjustfield), between
+    sign/prefix and body under `internal` (alone), else on the left -/
+def fieldLayout (f : Fmt) (width : Int) (fill : Char) (sign pre body : List Char) : List Char :=
+  let pad := List.replicate (width - ((sign.length + pre.length + body.length : Nat) : Int)).toNat fill
+  if f.left ∧ ¬ f.right ∧ ¬ f.internal then sign ++ pre ++ body ++ pad
+  else if f.internal ∧ ¬ f.left ∧ ¬ f.right then sign ++ pre ++ pad ++ body
+  else pad ++ sign ++ pre ++ body
+
 end Mpir.CxxIo
